@@ -88,17 +88,20 @@ fn runnable(b: &Baton) -> Vec<usize> {
     }
     out
 }
-fn pick(b: &Baton) -> Option<usize> {
-    let r = runnable(b);
-    if r.is_empty() { return None; }
-    if r.len() == 1 { return Some(r[0]); }
+fn next_sched() -> usize {
     let mut g = STATE.lock().unwrap();
     if g.is_none() { *g = Some(load()); }
     let st = g.as_mut().unwrap();
     let d = if st.spos < st.sched.len() { st.sched[st.spos] } else { 0 };
-    st.spos += 1;
+    st.spos += 1; d
+}
+fn pick_from(r: &Vec<usize>) -> Option<usize> {
+    if r.is_empty() { return None; }
+    if r.len() == 1 { return Some(r[0]); }
+    let d = next_sched();
     Some(r[if d < r.len() { d } else { 0 }])
 }
+fn pick(b: &Baton) -> Option<usize> { pick_from(&runnable(b)) }
 pub struct Handle<T>(usize, Arc<Mutex<Option<T>>>);
 pub fn spawn<T: Send + 'static, F: FnOnce() -> T + Send + 'static>(f: F) -> Handle<T> {
     let bt = baton();
@@ -115,6 +118,17 @@ pub fn spawn<T: Send + 'static, F: FnOnce() -> T + Send + 'static>(f: F) -> Hand
         bt2.1.notify_all();
     });
     Handle(tid, slot)
+}
+pub fn current_tid() -> usize { me() }
+/// called by the lock shims when the lock is held incompatibly: hand over to another runnable thread (deadlock if none)
+pub fn block_on_lock() {
+    let bt = baton(); let m = me();
+    let mut b = bt.0.lock().unwrap();
+    let r: Vec<usize> = runnable(&b).into_iter().filter(|t| *t != m).collect();
+    match pick_from(&r) {
+        None => { drop(b); panic!("deadlock: no runnable thread"); }
+        Some(n) => { b.cur = n; bt.1.notify_all(); while b.cur != m { b = bt.1.wait(b).unwrap(); } }
+    }
 }
 pub fn yield_now() {
     let bt = baton(); let m = me();
